@@ -225,10 +225,12 @@ def wcs_spec(rng, proj=None, parity=None, frame=None, scale=None, crval=None, co
     cd = [[parity * scale * c, -scale * s], [parity * scale * s, scale * c]]
     if crval is None:
         latmax = 85 if conformal else 80
+        # longitudes at the 0/360 wrap and at 180 deg are ordinary places on the sky
+        lon0 = rng.choice([rng.uniform(0, 360), rng.uniform(0, 360), 0.0, 359.99999, 180.0, 1e-4])
         if proj == 'CAR':
-            crval = (rng.uniform(0, 360), 0.0)
+            crval = (lon0, 0.0)
         else:
-            crval = (rng.uniform(0, 360), rng.uniform(-latmax, latmax))
+            crval = (lon0, rng.choice([rng.uniform(-latmax, latmax), rng.uniform(-latmax, latmax), 0.0, latmax, -latmax]))
     if frame == 'galactic':
         ct = ('GLON-' + proj, 'GLAT-' + proj)
     else:
